@@ -96,15 +96,33 @@ def run(cmd, cwd=None, timeout=600, env=None):
         return 124, (out or "") + "\nTIMEOUT after %ss: %s" % (timeout, " ".join(cmd))
 
 
+class _Lock:
+    """one lock file shared by every check process: EXCLUSIVE while coq/gen is rewritten and `make` runs,
+    then kept SHARED until the process exits, so that nobody rebuilds (possibly from another source tree)
+    while this process evaluates cases against the compiled files"""
+    f = None
+
+    @classmethod
+    def exclusive(cls):
+        if cls.f is None:
+            cls.f = open(os.path.join(VERIF, ".build.lock"), "w")
+        else:
+            fcntl.flock(cls.f, fcntl.LOCK_UN)      # never upgrade in place: two upgraders would deadlock
+        fcntl.flock(cls.f, fcntl.LOCK_EX)
+
+    @classmethod
+    def shared(cls):
+        if cls.f is not None:
+            fcntl.flock(cls.f, fcntl.LOCK_SH)
+
+
 class BuildLock:
     def __enter__(self):
-        self.f = open(os.path.join(VERIF, ".build.lock"), "w")
-        fcntl.flock(self.f, fcntl.LOCK_EX)
+        _Lock.exclusive()
         return self
 
     def __exit__(self, *a):
-        fcntl.flock(self.f, fcntl.LOCK_UN)
-        self.f.close()
+        _Lock.shared()
 
 
 def translate():
